@@ -29,5 +29,20 @@ def cases(tier, seed):
                    peer=rnd.choice([48, 128, 16384, 65536, 0]), seed=seed * 100019 + i)
 
 
+_base_cases = cases
+
+
+def cases(tier, seed):    # noqa: F811
+    for c in _base_cases(tier, seed):
+        yield c
+    # several associations sending at the same time in one process, with line-level
+    # pre-emption inside the group-length computation and the element encoder they share
+    rnd = random.Random('c08h/%d' % seed)
+    for i in range(300 if tier == 'quick' else 10000):
+        yield dict(local=rnd.choice([128, 16384]), peer=65536, seed=seed * 100057 + i,
+                   nassoc=rnd.choice([2, 3]),
+                   fine=['set_length', 'encode_element', 'encode', 'send'])
+
+
 def run_case(case):
     return c06.run_case(case, want='c08')
